@@ -170,6 +170,8 @@ def oracle(cases, impl, model):
             if i.error.startswith("panic"):
                 fails.append({"case_index": k, "what": "panic: %s" % i.error})
             continue
+        if c.get("skip_instances"):
+            continue
         rel, args, nq = c["rel"], c["args"], len(c["qvars"])
         univ = universes(c)
         exp = expected_set(rel, args, nq, univ)
@@ -262,6 +264,17 @@ def run(tier, seed, replay=None):
             q = QV[: max([QV.index(v) for v in used] + [0]) + 1]
             cx = {"member": count_member, "member1": count_member1, "append": count_append, "rember": count_rember}.get(rel)
             cases.append(mk_case([], q, [["lib", rel] + args], maxans=30, budget=700, rel=rel, args=args, count_exact=cx, listvars=sorted(listvars)))
+    # the element searched for is a pair of two query variables, the list an association list with repeated keys and one of those
+    # variables inside: several disequalities between pairs are stored on the way (compared exactly with the model)
+    for _ in range(40 if tier == "quick" else 400):
+        rel = rnd.choice(["member1", "member1", "rember"])
+        keys = [rnd.randint(1, 2) for _ in range(rnd.randint(3, 4))]
+        items = [["list", k2, rnd.choice([1, 2, 3, "r"])] for k2 in keys]
+        x = ["list", "q", "r"]
+        args = [x, ["list"] + items] + (["t"] if rel == "rember" else [])
+        q = ["q", "r", "t"] if rel == "rember" else ["q", "r"]
+        cases.append(mk_case([], q, [["lib", rel] + args], maxans=30, budget=1500, rel=rel, args=args, count_exact=None,
+                             listvars=(["t"] if rel == "rember" else []), skip_instances=True))
     return pcheck.run_check("C24", tier, seed, cases, "exact", oracle, cone=["Proofs/EngineProofs.vo", "Gen/RelDefs.vo", "Proofs/SemProofs.vo", "Proofs/MonoProofs.vo", "Proofs/RelSound.vo", "Proofs/RelSound2.vo", "Proofs/LibComplete.vo", "Proofs/LibCor.vo"], replay=replay,
         rule="for each of member, member1, append, rember, permute, distinct, cons, first, rest, empty: random argument modes (each argument "
              "ground, partially ground with query variables inside, improper with a variable tail, or a fresh query variable) over lists of "
